@@ -64,3 +64,22 @@ func VerifInotifyReadFault(w *Watcher, on bool) error {
 	}
 	return b.inotifyFile.SetReadDeadline(time.Time{})
 }
+
+// VerifInotifySetWatchFlags overwrites the recorded flags of the watch on path
+// (the kernel's mask is not touched). A recursive watch registers new
+// sub-directories with the recorded flags of their parent, so recording an
+// invalid mask there makes that registration fail: a fault at that point.
+func VerifInotifySetWatchFlags(w *Watcher, path string, flags uint32) bool {
+	b, ok := w.b.(*inotify)
+	if !ok {
+		return false
+	}
+	b.mu.Lock()
+	defer b.mu.Unlock()
+	ww := b.watches.byPath(path)
+	if ww == nil {
+		return false
+	}
+	ww.flags = flags
+	return true
+}
